@@ -15,14 +15,14 @@ META = dict(
 
 def tasks(tier):
     from vf.core import Task
-    return [Task('props.wire:run', name='C17/wire.c17_point_pos.Npos1', fname='c17_point_pos', kwargs=dict(Npos=1), timeout=300), Task('props.wire:run', name='C17/wire.c17_point_pos.Npos2', fname='c17_point_pos', kwargs=dict(Npos=2), timeout=300), Task('props.wire:run', name='C17/wire.integrate_1d', fname='c17_integrate_1d', timeout=300), Task('props.wire:run', name='C17/wire.integrate_2d.asymmetric', fname='c17_integrate_2d', kwargs=dict(symmetric=False), timeout=300), Task('props.wire:run', name='C17/wire.integrate_2d.symmetric', fname='c17_integrate_2d', kwargs=dict(symmetric=True), timeout=300), Task('props.wire:run', name='C17/wire.point_pos_2d', fname='c17_point_pos_2d', timeout=600), Task('props.wire:run', name='C17/wire.vourlaki_mixture', fname='c17_vourlaki_mixture', timeout=300), Task('props.wire:run', name='C17/wire.mixture_functions', fname='c17_mixture_functions', timeout=300), Task('props.C17:t_pdf', name='C17/pdfs.biv_lognormal', timeout=600), Task('props.C17:t_pdf2', name='C17/pdfs.biv_ind_gamma', timeout=600)] + bounded_tasks('C17', tier)
+    return [Task('props.wire:run', name='C17/wire.c17_point_pos.Npos1', fname='c17_point_pos', kwargs=dict(Npos=1), timeout=300), Task('props.wire:run', name='C17/wire.c17_point_pos.Npos2', fname='c17_point_pos', kwargs=dict(Npos=2), timeout=300), Task('props.wire:run', name='C17/wire.point_pos_uncached', fname='c17_point_pos_uncached', timeout=300), Task('props.wire:run', name='C17/wire.integrate_1d', fname='c17_integrate_1d', timeout=300), Task('props.wire:run', name='C17/wire.integrate_2d.asymmetric', fname='c17_integrate_2d', kwargs=dict(symmetric=False), timeout=300), Task('props.wire:run', name='C17/wire.integrate_2d.symmetric', fname='c17_integrate_2d', kwargs=dict(symmetric=True), timeout=300), Task('props.wire:run', name='C17/wire.point_pos_2d', fname='c17_point_pos_2d', timeout=600), Task('props.wire:run', name='C17/wire.vourlaki_mixture', fname='c17_vourlaki_mixture', timeout=300), Task('props.wire:run', name='C17/wire.mixture_functions', fname='c17_mixture_functions', timeout=300), Task('props.C17:t_pdf', name='C17/pdfs.biv_lognormal', timeout=600), Task('props.C17:t_pdf2', name='C17/pdfs.biv_ind_gamma', timeout=600)] + bounded_tasks('C17', tier)
 
 
 MANIFEST_ENTRY = dict(
     category='other',
     engine='bounded',
     technique='sidecar contracts on the real functions: wiring / closed-form obligations from the AST discharged by z3 and the ring normaliser where the functions are within reach; bounded run-time contracts with independent oracles for the rest (never counted as proved)',
-    text='Discharged from the real source on every run (all values, stated small shapes): PDFs.c:biv_lognormal and biv_ind_gamma; Cache1D.integrate, integrate_point_pos; Cache2D.integrate: interior double trapezoid + the four edge marginals + three corner integrals with the documented integrand/range of every quad/dblquad call (asymmetric and symmetric shortcut; the missing both-deleterious corner is a known finding); Cache2D.integrate_point_pos entry-wise = the documented four-quadrant mixture (quadrant weights summing to one, each mixed quadrant weighted by the marginal density of the other population, cached spectra indexed population 1 first; a positive gamma absent from the cache refused) and integrate_symmetric_point_pos forwarding; Vourlaki_mixture as an exact linear combination of cached quantities; mixture, mixture_symmetric_point_pos, mixture_point_pos as two-term combinations with every argument bound by name to the cache method it reaches. Bounded run-time contracts (never counted as proved): DFE quadrature identities against mpmath, theta-linearity, mixtures, cache equality across worker counts and split jobs, fault reporting, compiled pdfs.',
+    text='Discharged from the real source on every run (all values, stated small shapes): PDFs.c:biv_lognormal and biv_ind_gamma; Cache1D.integrate, integrate_point_pos (cached gammas; and a gamma computed on demand: demo_sel_func called once, the cache extended by that gamma and the spectrum as computed, theta applied to the result only); Cache2D.integrate: interior double trapezoid + the four edge marginals + three corner integrals with the documented integrand/range of every quad/dblquad call (asymmetric and symmetric shortcut; the missing both-deleterious corner is a known finding); Cache2D.integrate_point_pos entry-wise = the documented four-quadrant mixture (quadrant weights summing to one, each mixed quadrant weighted by the marginal density of the other population, cached spectra indexed population 1 first; a positive gamma absent from the cache refused) and integrate_symmetric_point_pos forwarding; Vourlaki_mixture as an exact linear combination of cached quantities; mixture, mixture_symmetric_point_pos, mixture_point_pos as two-term combinations with every argument bound by name to the cache method it reaches. Bounded run-time contracts (never counted as proved): DFE quadrature identities against mpmath, theta-linearity, mixtures, cache equality across worker counts and split jobs, fault reporting, compiled pdfs.',
     note='bounded: see coverage.bounded.drivers[].bound in the evidence file for the exact domain of every driver',
 )
 
